@@ -19,7 +19,11 @@ RULE = ("Each case = a generated commit/merge/delete history (1-5 commits of 0-1
         "result size). bigsegment: one segment of 2049-5001 documents built from a generated periodic recipe (each "
         "word occurs in documents j with (j+offset) % period == 0 from some j on), optionally with every 7th / 2048th "
         "document deleted, 4 generated queries through the same access paths and the same reference; non-trivial = "
-        "result neither empty nor everything.")
+        "result neither empty nor everything. phrases: documents of up to 8 words over a two- or three-letter vocabulary "
+        "(so words repeat and a phrase has several candidate chains of positions) in 1-3 segments with deletions; every "
+        "phrase of 2 and 3 words over the vocabulary plus generated 4-5 word phrases, each with slop 1..4, through "
+        "docs_for_query and search against the reference chain matcher; non-trivial = a >=3-word phrase with slop >=2 "
+        "matching a document that repeats its second word.")
 ASSUMPTIONS = [
     "reference evaluator (wv/refquery.py) encodes the documented meaning of each query type",
     "FuzzyTerm is checked against an interval [Levenshtein, Damerau-Levenshtein] because the docs do not fix "
@@ -181,7 +185,74 @@ def run_big(case, out):
         ix.close()
 
 
+# ---------------------------------------------------------------------------------------------------------
+# phrases over a two/three-letter vocabulary: documents repeat words, so a phrase has several candidate chains
+
+def strategy_phrases(tier):
+    letters = st.sampled_from([["a", "b"], ["a", "b", "c"], ["a", "b", "c"]])
+    return letters.flatmap(lambda al: st.fixed_dictionaries({
+        "alphabet": st.just(al),
+        "segments": st.lists(st.lists(st.lists(st.sampled_from(al), max_size=8), min_size=1, max_size=14),
+                             min_size=1, max_size=3),
+        "delete": st.lists(st.integers(0, 41), max_size=4, unique=True),
+        "long": st.lists(st.lists(st.sampled_from(al), min_size=4, max_size=5), max_size=6),
+        "blocklimit": st.sampled_from([2, 128]),
+    }))
+
+
+def run_phrases(case, out):
+    import itertools
+    from whoosh.filedb.filestore import RamStorage
+    from whoosh.codec.whoosh3 import W3Codec
+    from whoosh import fields as wf
+    from wv.refquery import phrase_match
+    ix = RamStorage().create_index(wf.Schema(k=wf.ID(stored=True, unique=True), t=wf.TEXT(phrase=True)))
+    docs = {}
+    n = 0
+    for seg in case["segments"]:
+        w = ix.writer(codec=W3Codec(blocklimit=case["blocklimit"]))
+        for toks in seg:
+            k = "k%d" % n
+            n += 1
+            docs[k] = list(toks)
+            if toks:
+                w.add_document(k=k, t=list(toks))
+            else:
+                w.add_document(k=k)
+        w.commit(merge=False)
+    dels = sorted(set("k%d" % (j % n) for j in case["delete"]))
+    if dels:
+        w = ix.writer()
+        for k in dels:
+            w.delete_by_term("k", k)
+            docs.pop(k)
+        w.commit(merge=False)
+    al = case["alphabet"]
+    phrases = [list(p) for ln in (2, 3) for p in itertools.product(al, repeat=ln)] + [list(p) for p in case["long"]]
+    nt = 0
+    with ix.searcher() as s:
+        for words in phrases:
+            for slop in (1, 2, 3, 4):
+                qj = {"op": "phrase", "f": "t", "words": words, "slop": slop, "boost": 1.0}
+                exp = set(k for k, toks in docs.items() if phrase_match(toks, words, slop))
+                q = to_whoosh(qj)
+                got = set(_keys(s, s.docs_for_query(q)))
+                got2 = set(h["k"] for h in s.search(q, limit=None))
+                out.units += 1
+                if got != exp or got2 != exp:
+                    out.fail("c01.%s:phrases" % ("missing" if (exp - got or exp - got2) else "extra"),
+                             {"q": qj, "expected": sorted(exp), "docs_for_query": sorted(got), "search": sorted(got2),
+                              "docs": dict((k, docs[k]) for k in sorted((exp ^ got) | (exp ^ got2)))})
+                # several candidate chains: the first word or a middle word occurs more than once in a matching document
+                if slop >= 2 and len(words) >= 3 and any(docs[k].count(words[1]) >= 2 for k in exp):
+                    nt += 1
+    out.nontrivial = nt > 0
+    out.key = case
+    out.label("segments_%d" % len(case["segments"]), "alphabet_%d" % len(al))
+
+
 SUBS = {
     "search": Sub(run, strategy, quick=50, thorough=300, quick_shards=8),
     "bigsegment": Sub(run_big, strategy_big, quick=3, thorough=60, quick_shards=8),
+    "phrases": Sub(run_phrases, strategy_phrases, quick=30, thorough=300, quick_shards=8),
 }
